@@ -181,7 +181,7 @@ def validate_interpreter(chk, mod, native, jobs, SIGS, nsample=40):
                 vals[sp[1]] = [(mdl.eval(x, model_completion=True).as_long() if irsym.is_sym(x) else x) for x in v]
             else:
                 vals[sp[1]] = mdl.eval(v, model_completion=True).as_long() if irsym.is_sym(v) else v
-        a = e3.concrete_run(mod, SIGS[signame], vals)
+        a = e3.concrete_run(mod, SIGS[signame], vals, noop_stubs=kw.get('noop_stubs', ()))
         b = native.run(signame, vals)
         done += 1
         same = a['status'] == b['status'] or (a['status'] == 'abort' and b['status'] == 'abort')
